@@ -154,6 +154,7 @@ JudgeOut judge(const json &plan)
 	eo.want_tree = true;
 	RunResult r = execute(plan, eo);
 	add_exec_counters(out, r);
+	note_schedule(out, plan);
 	death_and_stdout(r, "", out.viol);
 	out.viol.erase(std::remove_if(out.viol.begin(), out.viol.end(), [](const Violation &v) { return v.cls.compare(0, 7, "stdout:") == 0; }), out.viol.end());
 	if (r.died)
